@@ -47,6 +47,14 @@ declarations:
     declarations:
     - decl: void blkfn(char *s +intent(out)+charlen(10))
     - decl: double *blkfn2(int n) +dimension(n)
+- block: true
+  declarations:
+  - decl: class Grp
+    declarations:
+    - decl: Grp()
+    - decl: void gmeth(const std::string &s)
+    - decl: int *gmeth2(double *v +rank(1))
+  - decl: void blkfn3(const std::string &s)
 """
 # A C library: plain functions need no C or Fortran wrapper unless one is forced
 BASE_C = """\
@@ -77,6 +85,7 @@ CONTAINERS = {
     "class": ("declarations", 2, "declarations", 2),
     "block-in-class": ("declarations", 2, "declarations", 2, "declarations", 4),
     "block-in-namespace": ("declarations", 2, "declarations", 3),
+    "block-with-class": ("declarations", 3),
 }
 # function-scoped settings, vetted against the code (see DESIGN.md section 3 C14)
 OPTIONS = [
@@ -111,7 +120,7 @@ COMMENT_ONLY = {"debug", "doxygen", "literalinclude"}
 ONLY_ON = {
     "F_name_function_template": ("block-in-class", "block-in-namespace"),
     "F_name_impl_template": ("block-in-class", "block-in-namespace"),
-    "literalinclude": ("namespace", "class", "block-in-class", "block-in-namespace"),
+    "literalinclude": ("namespace", "class", "block-in-class", "block-in-namespace", "block-with-class"),
 }
 FORMATS = [
     ("F_C_prefix", "q_"),
